@@ -226,7 +226,7 @@ func report(r *run.R, t *testing.T, caseID string, h *history, fails []failure) 
 }
 
 func differential(r *run.R, t *testing.T) {
-	total := r.Pick(4000, 100000)
+	total := r.Pick(5000, 100000)
 	var next atomic.Int64
 	var mu sync.Mutex
 	merged := stats{}
